@@ -226,9 +226,15 @@ fn scen(spec: RunSpec) -> ScenFut {
         // a third of the runs use power-loss semantics for the WAL segments: bytes written but not yet synced do
         // not survive a crash (the property's precondition is a sync on every write)
         let power_loss = sim::w(3) == 2 || profile == 6;
-        disk::with(|d| d.power_loss = power_loss);
+        // half of the power-loss runs are strict about directories: a segment file created since the last fsync of
+        // the WAL directory does not exist after the power loss
+        let dir_durability = power_loss && sim::w_bool(50);
+        disk::with(|d| {
+            d.power_loss = power_loss;
+            d.dir_durability = dir_durability;
+        });
         sim::log(format!(
-            "CONFIG variant={} profile={profile} writers={writers} flush_rows={} flush_interval={:?} segment={} post_gates={post} power_loss={power_loss} ending={}",
+            "CONFIG variant={} profile={profile} writers={writers} flush_rows={} flush_interval={:?} segment={} post_gates={post} power_loss={power_loss} strict_dir_durability={dir_durability} ending={}",
             spec.variant,
             cfg.flush_row_count,
             cfg.flush_interval,
